@@ -224,6 +224,21 @@ fn check_on(db: &Db, c: &DCase) -> CaseReport {
         let sig = if all_ok { "descriptions-are-not-the-phrases-used" } else { "descriptions-of-a-successful-result-missing-or-misplaced" };
         return fail(sig, format!("described {:?}; per result (ok?, phrases): {:?}", described, c.parts.iter().zip(oks.iter()).map(|(p, o)| (*o, p.phrases.clone())).collect::<Vec<_>>()));
     }
+    // a caller that takes one result and drops the iterator must already hold that result's descriptions
+    if oks.first() == Some(&true) {
+        match crate::tool::first_result_descriptions(db, q) {
+            Ok(Some((true, mut got))) => {
+                let mut w = c.parts[0].phrases.clone();
+                got.sort();
+                w.sort();
+                if got != w {
+                    return fail("descriptions-missing-after-the-first-result", format!("after one next() and dropping the iterator: described {:?}, phrases of the first result {:?}", got, w));
+                }
+            }
+            Ok(_) => return fail("first-result-changes", "evaluating again, the first result is no longer a value".to_string()),
+            Err(p) => return fail("panic", p),
+        }
+    }
     let ok_before_err = oks.iter().position(|o| !*o).map(|e| c.parts[..e].iter().any(|p| !p.phrases.is_empty())).unwrap_or(false);
     // each description carries the constant the phrase returns when asked alone
     for d in &with.descs {
